@@ -5,6 +5,7 @@ Property theorems only (helper lemmas: Lemmas/People.lean, Lemmas/Arr.lean).  Mo
 array is a Model/Arr.lean array with the reallocation rule regenerated from /repo (Generated/ArrConsts.lean).
 -/
 import StarsimModel.Lemmas.People
+import StarsimModel.Lemmas.SimCore
 
 set_option maxRecDepth 2000
 namespace StarsimModel.C10
@@ -623,5 +624,45 @@ example :
     finalizeVal true (5/2) 113 = 282 ∧
     finalizeVal true (5/2) 113 + (7 : Rat) * (5/2) ≠ finalizeVal true (5/2) 118 + (2 : Rat) * (5/2) := by
   decide +kernel
+
+/-! ### Population flow in the composed step model
+
+`SimCore.simStep` (Model/SimCore.lean) is one step of an SIR simulation in the phase order regenerated from
+`Loop.collect_funcs`, with the per-agent SIR functions regenerated from `sir.py`; its events (births, death requests of
+other modules, infections) are arbitrary.  The statements hold for every initial population in which every active agent is
+alive with no death pending, every event history and every number of steps; the model is compared with real runs row by
+row and agent by agent on every check of C13 (harness/props/c13_simcore.py). -/
+section composed
+open StarsimModel.SimCore
+
+/-- **Balance of one step**: `n_alive + new_deaths = active agents before + births`, the active set afterwards has
+    exactly the recorded `n_alive` members, and every one of them is alive with no death pending. -/
+theorem C10_composed_step_balance (s : Sim) (ev : Events) (h : ∀ a ∈ s.pop, Clean a) :
+    ∃ r : Row, (simStep s ev).rows = s.rows ++ [r] ∧
+      r.nAlive + r.newDeaths = nPresent s.pop + ev.births ∧
+      nPresent (simStep s ev).pop = r.nAlive ∧
+      ∀ a ∈ (simStep s ev).pop, Clean a :=
+  simStep_flow s ev h
+
+/-- **Balance over whole runs**: consecutive recorded rows satisfy
+    `n_alive[t] + new_deaths[t] = n_alive[t-1] + births[t]`, starting from the initial number of active agents. -/
+theorem C10_composed_run_balance (s : Sim) (evs : List Events) (h : ∀ a ∈ s.pop, Clean a) :
+    ∃ rs : List Row, (run s evs).rows = s.rows ++ rs ∧ flowOK (nPresent s.pop) rs evs ∧
+      (∀ a ∈ (run s evs).pop, Clean a) :=
+  run_flow evs s h
+
+/-- A death request left pending from before the step (the recorded finding: a request made after deaths were resolved)
+    breaks the balance — the agent dies in this step but is not counted in `new_deaths`: the hypothesis is needed. -/
+theorem C10_composed_balance_needs_clean :
+    let s : Sim := ⟨1, [⟨true, true, some 0, ⟨true, false, false⟩, Gen.Sir.Timers.const none⟩], [], false⟩
+    ∃ r, (simStep s ⟨0, [], []⟩).rows = [r] ∧ r.nAlive = 0 ∧ r.newDeaths = 0 ∧ nPresent s.pop = 1 := by
+  exact ⟨_, rfl, by decide +kernel, by decide +kernel, by decide +kernel⟩
+
+/-- non-vacuity: a clean population, a birth, a background death -/
+example : (∀ a ∈ ([⟨true, true, none, ⟨true, false, false⟩, Gen.Sir.Timers.const none⟩,
+                   ⟨false, false, some 0, ⟨false, false, false⟩, Gen.Sir.Timers.const none⟩] : List Agent), Clean a) := by
+  intro a ha; simp only [List.mem_cons, List.mem_nil_iff, or_false] at ha
+  rcases ha with rfl | rfl <;> intro hp <;> first | exact ⟨rfl, rfl⟩ | cases hp
+end composed
 
 end StarsimModel.C10
